@@ -18,7 +18,7 @@ def main():
     only = [a for a in sys.argv[1:] if not a.startswith("--")]
     claimed = [c["property_id"] for c in json.load(open(os.path.join(HERE, "MANIFEST.json")))["checks"]]
     results = {}
-    rp = os.path.join(SEEDS, "RESULTS.json")
+    rp = os.environ.get("WXV_RESULTS") or os.path.join(SEEDS, "RESULTS.json")
     if os.path.exists(rp):
         results = json.load(open(rp))
     ids = sorted(d for d in os.listdir(SEEDS) if os.path.isdir(os.path.join(SEEDS, d)))
